@@ -1007,6 +1007,180 @@ fn run_mirror(ctx: &mut Ctx, rep: &mut Report, index: &mut u64) {
 }
 
 // ---------------------------------------------------------------------------
+// mirrored scores of matrices with NON-FINITE cells, and ScoringMatrix::score_position
+// ---------------------------------------------------------------------------
+
+fn nonfinite_rows() -> Vec<Vec<f32>> {
+    let (n, p, q) = (f32::NEG_INFINITY, f32::INFINITY, f32::NAN);
+    vec![
+        vec![1.0, 2.0, 4.0, 8.0, n],
+        vec![q, 1.0, n, 2.0, n],
+        vec![p, -1.0, 3.0, n, 0.0],
+        vec![n, p, 0.0, 5.0, q],
+    ]
+}
+
+/// IEEE class of the sum of a window: the same whatever the summation order.
+fn window_class(cells: &[Vec<f32>], seq: &[u8], i: usize) -> f32 {
+    let m = cells.len();
+    let (mut nan, mut pinf, mut ninf, mut sum) = (false, false, false, 0f32);
+    for j in 0..m {
+        let t = cells[j][seq[i + j] as usize];
+        if t.is_nan() {
+            nan = true;
+        } else if t == f32::INFINITY {
+            pinf = true;
+        } else if t == f32::NEG_INFINITY {
+            ninf = true;
+        } else {
+            sum += t; // small integers: exact
+        }
+    }
+    if nan || (pinf && ninf) {
+        f32::NAN
+    } else if pinf {
+        f32::INFINITY
+    } else if ninf {
+        f32::NEG_INFINITY
+    } else {
+        sum
+    }
+}
+
+fn same_class(x: f32, y: f32) -> bool {
+    (x.is_nan() && y.is_nan()) || x == y
+}
+
+/// One (sequence, pipeline) point of the non-finite space.
+fn nonfinite_row(pl: Pl, seq: &[u8], prepared: &[Prepared], wrap: usize, rep: &mut Report) -> (u64, u64) {
+    let st = match stripe_pair(pl, seq, wrap) {
+        Ok(st) => st,
+        Err(_) => return (0, 0), // reported by mirror_scores
+    };
+    let rseq = pm::ref_rc_seq(seq);
+    let mut evals = 0;
+    let mut nontrivial = 0;
+    for p in prepared {
+        evals += 1;
+        let l = seq.len();
+        let m = p.width;
+        let valid = if l >= m { l - m + 1 } else { 0 };
+        if valid > 0 {
+            nontrivial += 1;
+        }
+        let res = catch(|| {
+            let mut a = StripedScores::<f32, U32>::empty();
+            let mut b = StripedScores::<f32, U32>::empty();
+            score_with(pl, &p.m, &st.s, &mut a);
+            score_with(pl, &p.rc, &st.r, &mut b);
+            let va: Vec<f32> = (0..valid.min(a.max_index())).map(|i| at(&a, i)).collect();
+            let vb: Vec<f32> = (0..valid.min(b.max_index())).map(|i| at(&b, i)).collect();
+            // the scalar entry point (same arm for striping; score_position itself is scalar)
+            let pa: Vec<f32> = (0..valid).map(|i| p.m.score_position(&st.s, i)).collect();
+            let pb: Vec<f32> = (0..valid).map(|i| p.rc.score_position(&st.r, i)).collect();
+            (a.max_index(), b.max_index(), va, vb, pa, pb)
+        });
+        let fail = match res {
+            Err(pn) => Some((format!("panic {}", panic_class(&pn)), format!("scoring panicked: {}", pn))),
+            Ok((na, nb, va, vb, pa, pb)) => {
+                let mut f = None;
+                if na != valid || nb != valid {
+                    f = Some(("score count".to_string(), format!("L={} M={}: {} / {} positions, expected {}", l, m, na, nb, valid)));
+                } else {
+                    for (what, x, y) in [("pipeline score", &va, &vb), ("score_position", &pa, &pb)] {
+                        for i in 0..valid {
+                            let (u, v) = (x[i], y[valid - 1 - i]);
+                            let want = window_class(&p.cells, seq, i);
+                            let wantr = window_class(&pm::cells_score(&p.rc), &rseq, valid - 1 - i);
+                            debug_assert!(same_class(want, wantr));
+                            if !same_class(u, v) || !same_class(u, want) {
+                                f = Some((
+                                    format!("{}: mirrored non-finite score", what),
+                                    format!(
+                                        "{}: m at position {} of s gives {:?}, rc(m) at position {} of rc(s) gives {:?}; the IEEE sum of the window's cells (any order) is {:?} (L={}, M={})",
+                                        what, i, u, valid - 1 - i, v, want, l, m
+                                    ),
+                                ));
+                                break;
+                            }
+                        }
+                        if f.is_some() {
+                            break;
+                        }
+                    }
+                }
+                f
+            }
+        };
+        if let Some((sig, msg)) = fail {
+            rep.violation(format!("C10 mirror_nonfinite {} {}", pl.name(), sig), msg, || {
+                let mut v = mirror_json(&p.spec, &p.cells, seq, pl, wrap);
+                v["kind"] = json!("mirror_nonfinite");
+                v
+            });
+        }
+    }
+    (evals, nontrivial)
+}
+
+fn prepare_nonfinite(specs: Vec<MatSpec>) -> Vec<Prepared> {
+    let mut out = Vec::new();
+    for spec in specs {
+        let m = match spec.build() {
+            Ok(Some(m)) => m,
+            _ => continue,
+        };
+        let rc = match catch(|| m.reverse_complement()) {
+            Ok(r) => r,
+            Err(_) => continue, // reported by the involution space
+        };
+        let cells = pm::cells_score(&m);
+        let width = spec.width();
+        out.push(Prepared { spec, m, rc, cells, width, integer: true });
+    }
+    out
+}
+
+fn run_mirror_nonfinite(ctx: &mut Ctx, rep: &mut Report, index: &mut u64) {
+    let quick = ctx.quick();
+    rep.space(
+        "mirror_nonfinite",
+        "product: ALL DNA sequences over {A,C,T,G,N} of length 0..=5 (3906; thorough 0..=6, 19531) x every scoring matrix of width 1..=3 over a 4-row menu of small-integer cells mixed with NaN, +inf and -inf cells \
+         (\"any content\"; built with ScoringMatrix::new) x {generic pipeline, dispatcher arms generic / sse2 / avx2} x {pipeline score_into, scalar ScoringMatrix::score_position}. \
+         Oracle: the IEEE sum of a window's cells has the same class in every summation order (NaN if a NaN cell or both infinities occur, else +inf / -inf / the exact integer sum): \
+         position i of m on s and position L-M-i of rc(m) on rc(s) both equal that value (NaN matches NaN)",
+    );
+    let ir = nonfinite_rows();
+    let specs: Vec<MatSpec> = pm::matrices_upto(ir.len(), 3).into_iter().map(|idx| MatSpec::Int(idx.iter().map(|&i| ir[i].clone()).collect())).collect();
+    let prepared = prepare_nonfinite(specs);
+    let wrap = 2;
+    let words = pm::all_words_upto(if quick { 5 } else { 6 }, 5);
+    for (si, seq) in words.iter().enumerate() {
+        let idx = *index;
+        *index += 1;
+        if !ctx.mine(idx) {
+            continue;
+        }
+        for pl in PIPELINES {
+            let (e, n) = nonfinite_row(pl, seq, &prepared, wrap, rep);
+            pm::bulk(rep, "mirror_nonfinite", e, n);
+        }
+        if seq.len() == 4 && si % 200 == 3 {
+            rep.sample_space(2, || {
+                let p = &prepared[prepared.len() / 2];
+                let mut v = mirror_json(&p.spec, &p.cells, seq, Pl::Generic, wrap);
+                v["kind"] = json!("mirror_nonfinite");
+                v
+            });
+        }
+        if si % 64 == 0 && ctx.out_of_time() {
+            rep.cap(format!("mirror_nonfinite: wall-clock cap at sequence #{} of {}", si, words.len()));
+            return;
+        }
+    }
+}
+
+// ---------------------------------------------------------------------------
 // frequency matrices given directly (FrequencyMatrix::new), rows summing to one only within the tolerance
 // ---------------------------------------------------------------------------
 
@@ -1121,6 +1295,9 @@ pub fn run(ctx: &mut Ctx, rep: &mut Report) {
         run_mirror(ctx, rep, &mut index);
         pm::report_slack("C10 mirror_scores");
     }
+    if ctx.wants("mirror_nonfinite") && !ctx.out_of_time() {
+        run_mirror_nonfinite(ctx, rep, &mut index);
+    }
 }
 
 pub fn replay(_ctx: &mut Ctx, rep: &mut Report, case: &Value) {
@@ -1170,6 +1347,15 @@ pub fn replay(_ctx: &mut Ctx, rep: &mut Report, case: &Value) {
                 .unwrap_or(prepared[0].width.max(1) - 1)
                 .max(prepared[0].width.max(1) - 1);
             mirror_row(pl, &seq, &prepared, wrap, rep, true);
+        }
+        "mirror_nonfinite" => {
+            let spec = MatSpec::from_json(&case["matrix"]);
+            let seq = pm::ranks_from_json(&case["sequence"]);
+            let pl = Pl::from_name(case["pipeline"].as_str().unwrap()).expect("unknown pipeline name");
+            let prepared = prepare_nonfinite(vec![spec]);
+            if !prepared.is_empty() {
+                nonfinite_row(pl, &seq, &prepared, 2, rep);
+            }
         }
         k => panic!("C10 replay: unknown case kind {}", k),
     }
